@@ -27,6 +27,7 @@ def parseTrigger (j : Json) : Option Trigger := do
   | "fix_gid_perms" => do pure (.fixGid (← getNat j "bad") (← getNat j "good"))
   | "fix_set_bits" => pure .fixSetBits
   | "detect_world_writable" => do pure (.detectWorldWritable (← getBool j "fix"))
+  | "preinst_contents_reset" => do pure (.reset (← (← getArr j "image").mapM parseEntry))
   | _ => none
 
 def handle : Handler := fun cmd j =>
@@ -42,6 +43,14 @@ def handle : Handler := fun cmd j =>
     match (do
       let es ← (← getArr j "entries").mapM parseEntry
       let ts := defaultTriggers (← getNat j "bu") (← getNat j "ru") (← getNat j "bg") (← getNat j "rg")
+      pure (Json.arr ((runTriggers ts es).map entryJson).toArray) : Option Json) with
+    | some r => some r
+    | none => some (Json.str "bad-op")
+  | "c23.ebuild" =>
+    match (do
+      let es ← (← getArr j "entries").mapM parseEntry
+      let img ← (← getArr j "image").mapM parseEntry
+      let ts := ebuildTriggers (← getNat j "bu") (← getNat j "ru") (← getNat j "bg") (← getNat j "rg") img
       pure (Json.arr ((runTriggers ts es).map entryJson).toArray) : Option Json) with
     | some r => some r
     | none => some (Json.str "bad-op")
